@@ -249,6 +249,46 @@ func runC02(c *Ctx) {
 		}
 	}
 
+	// ---- C02.B: nobody on the pass-through path consumes or re-parses the request body
+	c.Rule("C02.B", "the forwarded request's body is not read, parsed or replaced on the pass-through path", 1)
+	{
+		consumers := []string{"(*net/http.Request).ParseForm", "(*net/http.Request).ParseMultipartForm", "(*net/http.Request).FormValue", "(*net/http.Request).PostFormValue", "(*net/http.Request).FormFile", "(*net/http.Request).MultipartReader",
+			"net/http/httputil.DumpRequest", "net/http/httputil.DumpRequestOut", "(*net/http.Request).Write", "(*net/http.Request).WriteProxy", "(*net/http.Request).Clone"}
+		bad := ""
+		inspected := 0
+		for _, fn := range scope {
+			top := fn
+			for top.Parent() != nil {
+				top = top.Parent()
+			}
+			isShimEndpoint := FuncName(top) == "agent/websockets.createShimChannel"
+			EachInstr(fn, func(i ssa.Instruction) {
+				cc := CallOf(i)
+				if cc == nil {
+					return
+				}
+				inspected++
+				n := CalleeName(cc)
+				// readers of <request>.Body
+				for _, a := range Args(cc) {
+					for _, r := range Roots(a) {
+						if base, fld, ok := FieldLoad(r); ok && fld == "Body" && isRequestType(base.Type()) {
+							if !isShimEndpoint {
+								bad = n + " reads the request body at " + p.Pos(i.Pos())
+							}
+						}
+					}
+				}
+				for _, cn := range consumers {
+					if n == cn && !isShimEndpoint && len(Args(cc)) > 0 && isRequestType(Args(cc)[0].Type()) {
+						bad = n + " at " + p.Pos(i.Pos())
+					}
+				}
+			})
+		}
+		c.Check("C02.B", "request-path:body-untouched", p, 0, bad == "" && inspected > 100, fmt.Sprintf("%d call sites on the request path inspected: none reads, parses, dumps or re-serialises the forwarded request (the shim endpoints read their own control messages only)", inspected), "on the pass-through path "+bad+": the backend no longer receives the body the client sent (consumed/parsed before forwarding)")
+	}
+
 	// ---- C02.I
 	if f := c.need(p, "C02.I", "server.newPendingRequest"); f != nil {
 		as := AllocsOf(f, "server.pendingRequest")
